@@ -10,20 +10,20 @@ TrInit == Init /\ tid \in 1..Len(Traces) /\ l = 1
 Ev == Traces[tid][l]
 More == l <= Len(Traces[tid])
 TrAssign == /\ More /\ Ev.ev = "assign"
-            /\ Assign(Ev.v)
+            /\ Assign(Ev.v, Ev.th)
             /\ out' = Ev.out /\ Active(switch') = Ev.sw   \* logged outcome and logged (observable) switch state
             /\ l' = l + 1 /\ tid' = tid
 TrCall == /\ More /\ Ev.ev = "call"
-          /\ Call([m |-> Ev.m, f |-> Ev.f, c |-> Ev.c])
+          /\ Call([m |-> Ev.m, f |-> Ev.f, c |-> Ev.c], Ev.th)
           /\ out' = Ev.out /\ Active(switch') = Ev.sw
           /\ l' = l + 1 /\ tid' = tid
 TrOther == /\ More /\ Ev.ev = "other_instance"
-           /\ OtherInstance(Ev.v)
+           /\ OtherInstance(Ev.v, Ev.th)
            /\ out' = Ev.out /\ Active(switch') = Ev.sw
            /\ l' = l + 1 /\ tid' = tid
 TrNext == TrAssign \/ TrCall \/ TrOther
 TrSpec == TrInit /\ [][TrNext]_tvars
 (* progress report: the harness accepts a trace iff l reached Len+1 *)
 TrEmit == PrintT("@@" \o ToJson([tid |-> tid, l |-> l]))
-TrInvariant == SwitchIsLastValid /\ NeverRejectsValid /\ OffMeansOff /\ OnRejectsInvalid
+TrInvariant == SwitchIsLastValid /\ NeverRejectsValid /\ OffMeansOff /\ OnRejectsInvalid /\ OneSwitchPerProcess
 =============================================================================
